@@ -4581,6 +4581,9 @@ Case_BaseLdurStur:
             if (!check_signature(o0, o3))
               goto InvalidInstruction;
 
+            if (!check_signature(o1, o2) || !check_consecutive(o1, o2))
+              goto InvalidInstruction;
+
             if (o3.id() > 31)
               goto InvalidPhysId;
 
@@ -4591,6 +4594,9 @@ Case_BaseLdurStur:
             if (!check_signature(o0, o4))
               goto InvalidInstruction;
 
+            if (!check_signature(o1, o2, o3) || !check_consecutive(o1, o2, o3))
+              goto InvalidInstruction;
+
             if (o4.id() > 31)
               goto InvalidPhysId;
 
@@ -4599,6 +4605,9 @@ Case_BaseLdurStur:
 
           case 3:
             if (!check_signature(o0, o5))
+              goto InvalidInstruction;
+
+            if (!check_signature(o1, o2, o3, o4) || !check_consecutive(o1, o2, o3, o4))
               goto InvalidInstruction;
 
             if (o5.id() > 31)
